@@ -117,6 +117,7 @@ structure ActSlot (α : Type) where
   biasprm4 : α
   biasprm5 : α
   velocity : α             -- d->actuator_velocity[m->actuator_outadr[i]]
+  actnum : Int             -- m->actuator_actnum[i]  (the actuator's own activation is the LAST slot: offset = actnum − 1)
 
 /-- `mjDCMotorSlots` -/
 structure DCSlots where
@@ -161,9 +162,10 @@ def nextActDC (p : ActSlot α) (h act actDot : α) : α :=
   else
     act + actDot * h
 
-/-- the unclamped next activation (dyntype dispatch of `mj_nextActivation`) -/
+/-- the unclamped next activation (dyntype dispatch of `mj_nextActivation`); the exact filter step applies to the
+actuator's own activation only (`is_own_act`: last slot of the block) — preceding (plugin-state) slots are Euler -/
 def nextActRaw (p : ActSlot α) (h act actDot : α) : α :=
-  if p.dyntype = RK4.mjDYN_FILTEREXACT then filterExact p.dynprm0 h act actDot
+  if p.dyntype = RK4.mjDYN_FILTEREXACT ∧ p.offset = p.actnum - 1 then filterExact p.dynprm0 h act actDot
   else if p.dyntype = RK4.mjDYN_DCMOTOR then nextActDC p h act actDot
   else act + actDot * h
 
@@ -231,7 +233,7 @@ def Actuator.slot (a : Actuator α) (offset : Nat) : ActSlot α :=
   { dyntype := a.dyntype, actlimited := a.actlimited, offset := (offset : Int), lo := a.lo, hi := a.hi,
     dynprm0 := a.dynprm0, dynprm2 := a.dynprm2, dynprm5 := a.dynprm5, dynprm7 := a.dynprm7, dynprm8 := a.dynprm8,
     gainprm5 := a.gainprm5, biasprm3 := a.biasprm3, biasprm4 := a.biasprm4, biasprm5 := a.biasprm5,
-    velocity := a.velocity }
+    velocity := a.velocity, actnum := (a.actnum : Int) }
 
 /-- `wrapPeriod(m, i)` -/
 def wrapPeriod (a : Actuator α) : α :=
